@@ -518,7 +518,54 @@ pub fn run(ctx: &Ctx) -> i32 {
             }
         }
     });
-    let rule = format!("{} generated common-model documents; (a) each spelled in one format in turn and damaged at EVERY byte position (<= 200 B; sampled above) by deleting the byte, inserting a stray structural byte, inserting a control / invalid UTF-8 byte, or truncating there, slice and reader alternating, confirmed malformed by the independent reader, judged for the three streaming targets; (b) one unrepresentable construct (null key / sequence key -> JSON, binary -> YAML, null -> TOML, 65..128-bit integer -> MessagePack) planted at a random path (depth <= 6) from every source that can spell it; (c) every third document: the writer fails at EVERY byte of the fault-free output (sampled above 600 B), three fault styles (short accept then fail, reject the crossing write, accept nothing more: Ok(0) - whose cause is std's WriteZero), slice and reader; distinct non-trivial = distinct documents", n);
+    // (a') YAML in UTF-16/32 with one code unit that is not well-formed, behind 0..40 characters, with and
+    //      without a byte order mark: the message names the unit and ITS byte offset in the input as given
+    let mut acc = acc;
+    let mut enc_cases = vec![];
+    for enc in crate::c07::ENCS {
+        for bom in [true, false] {
+            for chars in 0..40usize {
+                enc_cases.push((enc, bom, chars));
+            }
+        }
+    }
+    let enc_acc = crate::par::run(enc_cases.len(), 8, |i, acc| {
+        let (enc, bom, chars) = enc_cases[i];
+        let text: String = "k: [aa, bb, cc, dd, ee, ff, gg, hh, ii, jj]".chars().cycle().take(chars + 1).collect();
+        let text = format!("a{}", &text[..chars.min(text.len())]); // starts with an ASCII character
+        let mut bytes = enc.encode(&text, bom);
+        let p = bytes.len();
+        let bad: u32 = if enc.is16() { [0xDC00, 0xDFFF][i % 2] } else { [0x110000, 0xD800, 0x7FFF_FFFF][i % 3] };
+        if enc.is16() {
+            enc.unit16(bad as u16, &mut bytes);
+        } else {
+            enc.unit32(bad, &mut bytes);
+        }
+        bytes.extend_from_slice(&enc.encode(" z\n", false));
+        for mode in [Mode::Slice, Mode::Reader(Sched::All), Mode::Reader(Sched::Fixed(3))] {
+            for to in [Fmt::Json, Fmt::Yaml, Fmt::Msgpack] {
+                acc.evals += 1;
+                acc.count("illformed_code_unit_positions_checked");
+                let mut w = Vec::new();
+                let v = match &mode {
+                    Mode::Slice => guarded(|| xt::translate_slice(&bytes, Some(xt::Format::Yaml), to.xt(), &mut w)),
+                    Mode::Reader(s) => guarded(|| xt::translate_reader(SchedReader::new(&bytes, s.clone()), Some(xt::Format::Yaml), to.xt(), &mut w)),
+                };
+                let want_unit = format!("0x{bad:x}");
+                let want_pos = format!("at byte {p}");
+                let ok = match &v {
+                    Verdict::Err(e) => e.contains(&want_unit) && (e.contains(&format!("{want_pos} ")) || e.ends_with(&want_pos) || e.contains(&format!("{want_pos}\n")) || e.contains(&format!("{want_pos}:")) || e.contains(&format!("{want_pos},"))),
+                    _ => false,
+                };
+                if !ok {
+                    acc.violation(Violation { sig: format!("ill-formed {} unit{}: the message does not name the unit at its byte offset", enc.name(), if bom { " behind a byte order mark" } else { "" }), case: json!({"part": "encoding_position", "encoding": enc.name(), "bom": bom, "input_hex": hex(&bytes), "mode": mode.describe(), "to": to.name()}), observed: v.show(), expected: format!("an error naming code unit {want_unit} {want_pos} (offsets count from the first byte of the input, byte order mark included)") });
+                    return;
+                }
+            }
+        }
+    });
+    acc.merge(enc_acc);
+    let rule = format!("{} generated common-model documents; (a) each spelled in one format in turn and damaged at EVERY byte position (<= 200 B; sampled above) by deleting the byte, inserting a stray structural byte, inserting a control / invalid UTF-8 byte, or truncating there, slice and reader alternating, confirmed malformed by the independent reader, judged for the three streaming targets; (a') YAML in each of UTF-16LE/BE, UTF-32LE/BE with one ill-formed code unit behind 0..39 characters, with and without a byte order mark, slice and reader: the message names the unit and its byte offset in the input as given; (b) one unrepresentable construct (null key / sequence key -> JSON, binary -> YAML, null -> TOML, 65..128-bit integer -> MessagePack) planted at a random path (depth <= 6) from every source that can spell it; (c) every third document: the writer fails at EVERY byte of the fault-free output (sampled above 600 B), three fault styles (short accept then fail, reject the crossing write, accept nothing more: Ok(0) - whose cause is std's WriteZero), slice and reader; distinct non-trivial = distinct documents", n);
     ev::finish(
         Finish { ctx, level: "fault_enumeration", rule, assumptions: vec!["equality with the message the source crate gives when called directly is NOT demanded (it legitimately differs with the visitor and reader kind)".into(), "reference reasons come from handing the construct / the same failing writer directly to the target crate inside the harness".into()], extra: serde_json::Map::new(), exhaustive: false, min_distinct: 300, must_reach: vec![("input_side_messages_ok".into(), 5000), ("value_reason_present".into(), 1000), ("writer_reason_present".into(), 5000)] },
         acc,
